@@ -780,13 +780,105 @@ def ob_id_from_var(run, mir, rp, fam):
         te = ex.to_val(s, ty_exp["ret"])
         var_child = ex.to_val(s, ex.app("Expected.From::from", [var_ref], "Expected", s))
         init_child = ex.to_val(s, ex.app("Expected.From::from", [e_box], "Expected", s))
-        has_var = disj([z3.And(a["argvals"][2] == te, a["argvals"][3] == var_child) for a in adds])
-        has_init = disj([z3.And(a["argvals"][2] == te, a["argvals"][3] == init_child) for a in adds])
+        cons = [d for d in constraints_on(ex, p, s, e2.rust_struct(ckern.ENV_RS, "Environment")) if d["parent"] is not None]
+        has_var = disj([z3.And(d["parent"] == te, d["child"] == var_child) for d in cons])
+        has_init = disj([z3.And(d["parent"] == te, d["child"] == init_child) for d in cons])
         claims.append(z3.Implies(c, z3.And(has_var, z3.Implies(e_some, has_init),
                                            ty_exp["argvals"][0] == ex.to_val(s, var_pos))))
     if not n_ok:
         raise Unsupported("no Ok path")
     e2.prove(run, ob, ex, [], conj(claims), {"expr.is_some": e_some, "mutable": mutable}, fam.as_replay("annotated-variable:", only=["initialiser-"]))
+
+
+def init_family(rp):
+    f = e2.Family(rp)
+    f.add("initscope-annotated-redefinition-reads-old", "def x := \"a\"\ndef x: Int := x", "reject")
+    f.add("initscope-annotated-redefinition-uses-old", "def x := \"a\"\ndef x: Int := x + 1", "reject")
+    f.add("initscope-inferred-redefinition-keeps-type", "def x := 1\ndef x := x + 1\ndef y: Str := x", "reject")
+    f.add("initscope-inferred-redefinition-copy", "def x := \"a\"\ndef x := x\ndef y: Int := x", "reject")
+    f.add("initscope-inferred-redefinition-conforming", "def x := 1\ndef x := x + 1\ndef y: Int := x", "accept")
+    f.add("initscope-annotated-redefinition-conforming", "def x := 1\ndef x: Int := x + 1\ndef y: Int := x", "accept")
+    f.add("initscope-annotated-redefinition-other-type-conforming", "def x := 1\ndef x: Str := \"s\"\ndef y: Str := x", "accept")
+    f.add("initscope-tuple-swap", "def a := \"s\"\ndef b := 1\ndef (a, b) := (b, a)\ndef y: Str := a", "reject")
+    f.add("initscope-tuple-swap-conforming", "def a := \"s\"\ndef b := 1\ndef (a, b) := (b, a)\ndef y: Int := a", "accept")
+    return f
+
+
+def ob_initialiser_scope(run, mir, rp, fam):
+    ob = run.ob("initialiser-scope", "E2", "id_from_var (every form of definition with an initialiser): in each constraint that mentions the initialiser "
+                "expression, the expression is renamed with the shadow tables of the INCOMING environment and of the builder as they were before the "
+                "variable was inserted - the initialiser of a re-definition `def x := x + 1` reads the previous x - while the variable itself is "
+                "renamed with a later table", ["id_from_var + closures", "ConstrBuilder::add / add_constr_map (contract)"])
+    fn = e2.find1(mir, file=DEF_RS, name="id_from_var")
+    fields = e2.rust_struct(ckern.ENV_RS, "Environment")
+    claims, n, used = [], 0, set()
+    ex = None
+    for with_ty in (True, False):
+        ex = Exec(mir, max_paths=20000)
+        st = State()
+        var, var_pos = ckern.mk_ast("var", opq("var.node", "Node"))
+        var_ref = Ref(ex.new_cell(st, var))
+        ty = Agg("Option", "Some", [opq("ty.v", "Name")]) if with_ty else Agg("Option", "None", [])
+        e_ast, _ = ckern.mk_ast("init", opq("init.node", "Node"))
+        e_box = Ref(ex.new_cell(st, e_ast))
+        expr = Agg("Option", "Some", [e_box])
+        ctx = Ref(ex.new_cell(st, opq("ctx", "Context")))
+        cb_fields = e2.rust_struct("src/check/constrain/constraint/builder.rs", "ConstrBuilder")
+        cbv = {f: opq("constr." + f, "?") for f in cb_fields}
+        for f in ("branch_point", "temp_name_offset"):
+            if f in cbv:
+                cbv[f] = z3.BitVec("constr." + f, 64)
+        if "joined" in cbv:
+            cbv["joined"] = z3.Bool("constr.joined")
+        global0 = cbv["var_mapping"]
+        constr = Ref(ex.new_cell(st, e2.mk_struct("src/check/constrain/constraint/builder.rs", "ConstrBuilder", cbv)))
+        env, ev = ckern.sym_env(ex, st)
+        ends = e2.run_kernel(run, ex, fn, [var_ref, Ref(ex.new_cell(st, ty)), Ref(ex.new_cell(st, expr)), z3.Bool("mutable"), ctx, constr, env], st)
+        outer_t = ex.to_val(st, ev["var_mapping"])
+        for p in ends:
+            if result_kind(p) != "Ok":
+                continue
+            s = p.state
+            c = conj(p.cond)
+            init_e = ex.to_val(s, ex.app("Expected.From::from", [e_box], "Expected", s))
+            cons = constraints_on(ex, p, s, fields)
+            # the builder's table when the initialiser has been generated and the variable is not yet inserted
+            gen = [g for g in calls(p, "generate") if z3.eq(g["argvals"][0], ex.to_val(s, e_box))]
+            if len(gen) != 1 or 3 not in gen[0].get("mut_post", {}):
+                claims.append(z3.Not(c))
+                continue
+            g0 = ex.to_val(s, ex.project(s, gen[0]["mut_post"][3], ("f", cb_fields.index("var_mapping")), "VarMapping"))
+            mine = [d for d in cons if d["child"] is not None and (z3.eq(d["child"], init_e) or z3.eq(d["parent"], init_e))]
+            if not mine:
+                claims.append(z3.Not(c))
+                continue
+            n += 1
+            cl = []
+            for d in mine:
+                side = "child" if z3.eq(d["child"], init_e) else "parent"
+                t, g = d[side + "_table"], d[side + "_global"]
+                used.add("incoming-environment" if (t is not None and z3.eq(t, outer_t)) else "environment-with-the-new-variable")
+                cl.append(z3.BoolVal(False) if t is None or g is None else z3.And(t == outer_t, g == g0))
+            claims.append(z3.Implies(c, conj(cl)))
+    if n < 2:
+        raise Unsupported(f"{n} paths constrain the initialiser")
+    which = "+".join(sorted(used))
+    ff = init_family(rp)
+
+    def replay(model):
+        r = ff.as_replay()(model)
+        if r.get("reproduced"):
+            r["failing_programs"] = r.get("all_failing_roles")
+            r["role"] = "initialiser-renamed-with:" + which
+        return r
+    e2.prove(run, ob, ex, [], conj(claims), {}, replay)
+    if ob.status == "discharged":
+        k, bad = ff.run()
+        run.validated += k
+        if bad:
+            ob.status = "pending"
+            ob.inconclusive(f"initialiser family disagrees although the kernel is as specified: {bad[:2]}")
+    run.samples.append({"obligation": ob.id, "initialiser_renamed_with": which, "paths": n})
 
 
 def ob_fun_body(run, mir, rp, fam):
@@ -953,37 +1045,50 @@ def ob_fn_value_arguments(run, mir, rp, fam, prefix="fn-value"):
     run.samples.append({"obligation": ob.id, "queued_paths": n_push, "error_paths": n_err})
 
 
-def renaming_of(ex, p, s, msg, env_fields):
-    """How the two sides of the constraint labelled `msg` are renamed on path p: (parent value, parent table, child value, child table)
-    as z3 terms, for both ways of adding a constraint: ConstrBuilder::add(msg, parent, child, env) [contract: both sides are renamed with
-    env.var_mapping] and add_constr_map(Constraint::new(msg, parent.map_exp(t1, _), child.map_exp(t2, _)), _, ignore_map = true)."""
+def constraints_on(ex, p, s, env_fields):
+    """Every constraint added on path p with the shadow tables its two sides are renamed with: [{msg, parent, parent_table, parent_global,
+    child, child_table, child_global}] (sides BEFORE renaming, as z3 terms; *_global is None when it is the builder's own table at the time of the
+    call). Both ways of adding are understood: ConstrBuilder::add(msg, parent, child, env) [contract: both sides renamed with env.var_mapping,
+    then the builder's table] and add_constr_map(Constraint::new(msg, parent.map_exp(t1, g1), child.map_exp(t2, g2)), _, ignore_map = true);
+    a side that is handed to Constraint::new without map_exp is a side that is not renamed at all (table None)."""
     i_vm = env_fields.index("var_mapping")
 
     def table_of_env(envarg):
         v = ex.read_ref(s, envarg) if isinstance(envarg, Ref) else envarg
         return ex.to_val(s, ex.project(s, v, ("f", i_vm), "VarMapping"))
     out = []
-    for a in calls(p, "ConstrBuilder::add"):
-        if isinstance(a["args"][1], StrC) and a["args"][1].s == msg:
-            t = table_of_env(a["args"][4])
-            out.append((a["argvals"][2], t, a["argvals"][3], t))
     maps = [e_ for e_ in p.events if e_["name"].split("::")[-1] == "map_exp"]
-    for c in calls(p, "Constraint::new"):
-        if not (isinstance(c["args"][0], StrC) and c["args"][0].s == msg):
-            continue
-        used = [a for a in calls(p, "ConstrBuilder::add_constr_map") if z3.eq(a["argvals"][1], ex.to_val(s, c["ret"]))]
-        if len(used) != 1 or not z3.is_true(z3.simplify(used[0]["args"][3] if z3.is_expr(used[0]["args"][3]) else z3.BoolVal(False))):
-            continue
-        sides = []
-        for side in (c["argvals"][1], c["argvals"][2]):
-            m = [e_ for e_ in maps if z3.eq(ex.to_val(s, e_["ret"]), side)]
-            if len(m) != 1:
-                sides = None
-                break
-            sides.append((m[0]["argvals"][0], m[0]["argvals"][1]))
-        if sides:
-            out.append((sides[0][0], sides[0][1], sides[1][0], sides[1][1]))
+    for a in p.events:
+        if a["name"].endswith("ConstrBuilder::add"):
+            t = table_of_env(a["args"][4])
+            m = a["args"][1]
+            out.append({"msg": m.s if isinstance(m, StrC) else None, "parent": a["argvals"][2], "parent_table": t, "parent_global": None,
+                        "child": a["argvals"][3], "child_table": t, "child_global": None})
+        elif a["name"].endswith("ConstrBuilder::add_constr_map"):
+            ign = a["args"][3]
+            if not (z3.is_expr(ign) and z3.is_true(z3.simplify(ign))):
+                continue
+            mk = [c for c in p.events if c["name"].endswith("Constraint::new") and z3.eq(ex.to_val(s, c["ret"]), a["argvals"][1])]
+            if len(mk) != 1:
+                out.append({"msg": None, "parent": None, "child": None, "parent_table": None, "child_table": None, "parent_global": None, "child_global": None})
+                continue
+            c = mk[0]
+            m = c["args"][0]
+            d = {"msg": m.s if isinstance(m, StrC) else None}
+            for nm, side in (("parent", c["argvals"][1]), ("child", c["argvals"][2])):
+                mm = [e_ for e_ in maps if z3.eq(ex.to_val(s, e_["ret"]), side)]
+                if len(mm) == 1:
+                    d[nm], d[nm + "_table"], d[nm + "_global"] = mm[0]["argvals"][0], mm[0]["argvals"][1], mm[0]["argvals"][2]
+                else:
+                    d[nm], d[nm + "_table"], d[nm + "_global"] = side, None, None
+            out.append(d)
     return out
+
+
+def renaming_of(ex, p, s, msg, env_fields):
+    """(parent value, parent table, child value, child table) of the constraints labelled msg on path p (see constraints_on)."""
+    return [(d["parent"], d["parent_table"], d["child"], d["child_table"]) for d in constraints_on(ex, p, s, env_fields)
+            if d["msg"] == msg and d["parent_table"] is not None and d["child_table"] is not None]
 
 
 def branch_family(rp):
@@ -1280,7 +1385,7 @@ def run(run):
                "outside: that a violation is still caught in every nesting context (branch forking in ConstrBuilder); the accepted-exactly-when direction for whole programs")
     run.trusted += ["rustc nightly MIR dump", "mirsym MIR semantics", "z3"]
     run.bounds = {"paths": "all paths of each kernel with loops cut at their headers"}
-    for f in (ob_call_parameters, ob_method_parameters, ob_fn_value_arguments, ob_access_direction, ob_shadow_mapping, ob_operator_typing, ob_flow_constraints, ob_return, ob_id_from_var, ob_fun_body, ob_fun_body_scope, ob_branch_scope, ob_arm_scope, ob_unify_type):
+    for f in (ob_call_parameters, ob_method_parameters, ob_fn_value_arguments, ob_access_direction, ob_shadow_mapping, ob_operator_typing, ob_flow_constraints, ob_return, ob_id_from_var, ob_initialiser_scope, ob_fun_body, ob_fun_body_scope, ob_branch_scope, ob_arm_scope, ob_unify_type):
         try:
             f(run, mir, rp, fam)
         except Unsupported as e:
